@@ -539,6 +539,10 @@ pub fn commit_path(name: &str, repo: &Url, commit_hash: &str) -> PathBuf {
 /// to the git repository checkout path.
 pub fn fetch(fetch_id: u64, name: &str, pinned: &Pinned) -> Result<PathBuf> {
     let path = commit_path(name, &pinned.source.repo, &pinned.commit_hash);
+    // The commit is checked out into a sibling directory first and moved into place once it is
+    // complete. An existing `path` is taken to be a complete checkout and is re-used by later
+    // builds, so a crash or an I/O error must never leave a partial checkout there.
+    let partial_path = path.with_extension("partial");
     // Checkout the pinned hash to the path.
     with_tmp_git_repo(fetch_id, name, &pinned.source, |repo| {
         // Change HEAD to point to the pinned commit.
@@ -547,20 +551,19 @@ pub fn fetch(fetch_id: u64, name: &str, pinned: &Pinned) -> Result<PathBuf> {
         verif::fault("fetch:set-head")?;
         repo.set_head_detached(id)?;
 
-        // If the directory exists, remove it. Note that we already check for an existing,
-        // cached checkout directory for re-use prior to reaching the `fetch` function.
+        // Remove what an earlier, interrupted fetch may have left behind.
         #[cfg(fuellabs_sway_verif)]
-        verif::fault("fetch:remove-old")?;
-        if path.exists() {
-            let _ = fs::remove_dir_all(&path);
+        verif::fault("fetch:remove-partial")?;
+        if partial_path.exists() {
+            fs::remove_dir_all(&partial_path)?;
         }
         #[cfg(fuellabs_sway_verif)]
         verif::fault("fetch:create-dir")?;
-        fs::create_dir_all(&path)?;
+        fs::create_dir_all(&partial_path)?;
 
         // Checkout HEAD to the target directory.
         let mut checkout = git2::build::CheckoutBuilder::new();
-        checkout.force().target_dir(&path);
+        checkout.force().target_dir(&partial_path);
         // libgit2 cannot be interrupted from its progress callback, so an injected fault can only
         // end the process here (a crash between two files of the checkout).
         #[cfg(fuellabs_sway_verif)]
@@ -589,11 +592,25 @@ pub fn fetch(fetch_id: u64, name: &str, pinned: &Pinned) -> Result<PathBuf> {
         #[cfg(fuellabs_sway_verif)]
         verif::fault("fetch:write-index")?;
         fs::write(
-            path.join(".forc_index"),
+            partial_path.join(".forc_index"),
             serde_json::to_string(&source_index)?,
         )?;
         #[cfg(fuellabs_sway_verif)]
         verif::fault("fetch:index-written")?;
+
+        // If the directory exists, remove it. Note that we already check for an existing,
+        // cached checkout directory for re-use prior to reaching the `fetch` function.
+        #[cfg(fuellabs_sway_verif)]
+        verif::fault("fetch:remove-old")?;
+        if path.exists() {
+            let _ = fs::remove_dir_all(&path);
+        }
+        // Move the complete checkout into place.
+        #[cfg(fuellabs_sway_verif)]
+        verif::fault("fetch:rename")?;
+        fs::rename(&partial_path, &path)?;
+        #[cfg(fuellabs_sway_verif)]
+        verif::fault("fetch:renamed")?;
         Ok(())
     })?;
     Ok(path)
